@@ -134,3 +134,59 @@ def origins(hir, expr, params=(), defs=None, limit=400, transparent=()):
                     if src is not None:
                         work.append(src)
     return out
+
+
+def producers(hir, expr, params=(), defs=None, limit=200):
+    """The calls / literals / parameters that *produce* the value of expr: locals are followed back to their definitions, blocks
+    to their tail, `if` / `match` to their branches -- but the arguments of a call are not entered (a block appended to the
+    function `f` is produced by the append call, not by whatever produced `f`).  Returns a set of ("call", callee),
+    ("lit", v), ("param", name), ("field", name), ("other", kind)."""
+    defs = defs if defs is not None else definitions(hir, params)
+    out = set()
+    seen = set()
+    work = [expr]
+    steps = 0
+    while work and steps < limit:
+        steps += 1
+        e = work.pop()
+        if not isinstance(e, dict):
+            continue
+        e = hirq.unwrap_trivial(e)
+        k = e.get("k")
+        if k == "Block":
+            if e.get("e") is not None:
+                work.append(e["e"])
+        elif k == "If":
+            work.append(e["then"])
+            if e.get("else") is not None:
+                work.append(e["else"])
+        elif k == "Match" and "Try" in str(e.get("msrc")):
+            sc = hirq.unwrap_trivial(e["scrut"])      # `x?` is produced by x
+            work.append(sc["a"][0] if sc.get("a") else sc)
+        elif k == "Match":
+            for a in e["arms"]:
+                work.append(a["body"])
+        elif k in ("Call", "MethodCall"):
+            out.add(("call", hirq.callee(e) or hirq.callee_decl(e) or e.get("name")))
+        elif k == "Lit":
+            out.add(("lit", e.get("v")))
+        elif k == "Field":
+            out.add(("field", e.get("name")))
+        elif k == "Path" and e.get("rk") == "Local":
+            lid = e.get("lid")
+            if lid in seen:
+                continue
+            seen.add(lid)
+            for src, path in defs.get(lid, []):
+                if src is None:
+                    for p in path:
+                        out.add(p)
+                elif path:
+                    out.add(("other", "pattern"))
+                else:
+                    work.append(src)
+        elif k in ("AddrOf", "Cast", "Unary"):
+            work.append(e.get("e"))
+        else:
+            out.add(("other", k))
+    return out
